@@ -23,6 +23,7 @@ class UnitResult:
         self.dropped_hints = []
         self.wall = 0.0
         self.gen_path = None
+        self.demoted = {}
 
 
 def run_unit(unit, repo=REPO, rlimit=None, threads=8, canary=None, suffix='', max_rounds=4, timeout=900, post=None):
@@ -31,9 +32,13 @@ def run_unit(unit, repo=REPO, rlimit=None, threads=8, canary=None, suffix='', ma
     disabled = set()
     os.makedirs(GEN, exist_ok=True)
     rl = rlimit or UNIT_RLIMIT.get(unit, 40)
-    for rnd in range(max_rounds):
+    demoted = {}
+    rnd = -1
+    while rnd + 1 < max_rounds + len(demoted):
+        rnd += 1
         ug = UnitGen(repo, os.path.join(VERIF, 'units'), disabled=disabled)
         ug.canary = canary
+        ug.force_assumed = set(demoted)
         try:
             g = ug.generate(unit)
         except ExtractError as e:
@@ -67,8 +72,22 @@ def run_unit(unit, repo=REPO, rlimit=None, threads=8, canary=None, suffix='', ma
         if any(h['message'].startswith('hint does not compile') for h in hints):
             # rustc stopped before verification: nothing else of this round means anything
             und = [u for u in und if not u.startswith('tool/compile error')]
+        # a construct outside the Verus subset inside ONE extracted function: keep that function's
+        # signature and contract, leave its body unverified (reported as `demoted`), and verify the rest
+        import re as _re
+        culprits = set()
+        for u_ in und:
+            m_ = _re.search(r'\[outside-subset-in=([\w.<>:]+)\]$', u_)
+            if u_.startswith('tool/compile error') and m_ and m_.group(1) in g.fns and g.fns[m_.group(1)]['mode'] == 'verify':
+                culprits.add(m_.group(1))
+        compile_errs = [u_ for u_ in und if u_.startswith('tool/compile error')]
+        if culprits and len(culprits) + len(demoted) <= 3 and all(_re.search(r'\[outside-subset-in=', u_) for u_ in compile_errs) and not hints:
+            for c_ in culprits:
+                demoted[c_] = [u_ for u_ in compile_errs if u_.endswith('[outside-subset-in=%s]' % c_)][0][:400]
+            continue
         r.failures = others
         r.undecided = und
+        r.demoted = dict(demoted)
         if hints and rnd + 1 < max_rounds:
             # a failed hint is assumed by Verus afterwards, so nothing else in that
             # function can be trusted: drop the failing hints and re-verify.
@@ -89,6 +108,8 @@ def run_unit(unit, repo=REPO, rlimit=None, threads=8, canary=None, suffix='', ma
         r.status = 'fail'
     elif r.undecided:
         r.status = 'undecided'
+    elif r.demoted:
+        r.status = 'partial'   # everything that could be checked passed, but some function bodies were left unverified
     else:
         r.status = 'pass'
     r.wall = time.time() - t0
